@@ -461,9 +461,6 @@ func codecShards(tier string) []mc.Shard {
 					s1, s2 := buf, alt
 					v1, e1 := enc.DecodeUvarint64(&s1)
 					v2, e2 := enc.DecodeUvarint64(&s2)
-					f1, g1 := enc.DecodeVarfloat64(&buf)
-					_ = g1
-					_ = f1
 					if v1 != v2 || (e1 == nil) != (e2 == nil) || len(buf)-len(s1) > 9 {
 						c.fail("C18.nine-bytes", "DecodeUvarint64 of % x depends on bytes beyond the ninth", buf)
 					}
